@@ -61,6 +61,33 @@ def corr(ctx, drv):
             except Exception as e:
                 msgs.append(f"log_scale_cropbufs_inplace raised {type(e).__name__}: {e}")
         ctx.corr_case("dtype", {"dtype": name, "lo": lo, "hi": hi}, msgs, hkey=("dt", name))
+    # float32 on integers (Model.f32int, theorem cropbuf_arg_exact_f32): numpy's float32 conversion of integers up to 2**25, and the
+    # argument exp(result) of log_scale_cropbufs_inplace on float32 buffers against Model.cropArgF32
+    rng = np.random.default_rng(ctx.seed + 15)
+    ns = [2 ** 24, 2 ** 24 + 1, 2 ** 24 + 2, 2 ** 24 + 3, 2 ** 25 - 1, 2 ** 25, -2 ** 24 - 1, -2 ** 24 - 3, 2 ** 24 - 1, 0, 1, -1]
+    ns += [int(v) for v in rng.integers(-2 ** 25, 2 ** 25 + 1, 40)] + [int(v) for v in rng.integers(2 ** 24 - 8, 2 ** 24 + 40, 20)]
+    mo = drv.ask("f32 " + " ".join(str(n) for n in ns)).split()
+    msgs = [f"float32({n}) = {int(np.float32(n))}, model {m}" for n, m in zip(ns, mo) if m == "-" or int(np.float32(n)) != int(m)]
+    ctx.corr_case("f32int", {"ns": ns}, msgs, nontrivial=True)
+    for k in range(60 if ctx.tier == "thorough" else 20):
+        m_ = int(rng.integers(-2 ** 24, 2 ** 24 - 40)) if k % 3 else 2 ** 24 - int(rng.integers(2, 60))
+        x_ = min(2 ** 24, m_ + int(rng.integers(0, 60))) if k % 2 else 2 ** 24
+        if k % 5 == 4:
+            x_ = min(2 ** 24, m_ + int(rng.integers(2 ** 24 - 3, 2 ** 24 + 3)))
+        msgs = []
+        mo = drv.ask(f"f32arg {x_} {m_}")
+        bufs = np.array([[[m_, x_]]], dtype=np.float32)
+        with warnings.catch_warnings():
+            warnings.simplefilter("ignore")
+            try:
+                bc.log_scale_cropbufs_inplace(bufs)
+                got = float(bufs[0, 0, 1])
+                if mo != "-" and abs(got - float(np.float32(np.log(np.float32(int(mo)))))) > 2e-7 * max(1.0, abs(got)):
+                    msgs.append(f"float32 crop buffer [{m_}, {x_}]: log-scaled value {got!r} is not log({mo}) (model argument)")
+            except Exception as e:      # noqa: BLE001
+                msgs.append(f"log_scale_cropbufs_inplace raised {type(e).__name__}: {e}")
+        ctx.corr_case("f32arg", {"x": x_, "m": m_}, msgs, nontrivial=x_ == 2 ** 24)
+        ctx.count("f32arg_model_" + ("none" if mo == "-" else "exact" if int(mo) == x_ - m_ + 1 else "rounded"))
     ctx.exhaustive_range = {"dtypes": DTYPES}
 
 
